@@ -113,28 +113,95 @@ Theorem C11_non_retryable_never_retries : forall holders e, after_failure false 
 Proof. exact non_retryable_never_retries. Qed.
 Print Assumptions C11_non_retryable_never_retries.
 
-(* The judge used on the implementation's observations accepts the model's whole session for every
-   input (hypotheses: this relayer holds a key and is not named as a culprit) ... *)
-Theorem C11_spec_ok_model : forall (key : peer -> N) tm holders t self retryable runs1 e winner ready2 msgs2,
+(* Only the coordinator's own initiate messages re-arm the coordinator-timeout ticker: whatever other
+   peers send while the relayer waits for its coordinator [c] - initiate, start, fail messages, however
+   many, at whatever times - the relayer does nothing, keeps waiting, and the ticker's deadline stays
+   where it was ... *)
+Theorem C11_forged_traffic_no_rearm : forall c timeout watch msgs deadline,
+  Forall (not_from c) msgs ->
+  let w := timed_run (Some c) (Some c) timeout watch deadline Waiting msgs in
+  tr_outs w = [] /\ tr_state w = Waiting /\ tr_deadline w = deadline.
+Proof. exact forged_traffic_no_rearm. Qed.
+Print Assumptions C11_forged_traffic_no_rearm.
+
+(* ... so a coordinator that is unresponsive in the specification's sense (no start or fail message of
+   its own, a whole coordinator timeout of silence after each of its initiate messages before the TSS
+   timeout) is classified as such in the middle of any traffic of other peers: the judge of the
+   silent-coordinator sessions (the CoordinatorError retry without [c]; for keygen / resharing the
+   CoordinatorError is returned) accepts the model for all message streams. *)
+Theorem C11_unresponsive_coordinator_classified :
+  forall (key : peer -> N) tm m holders t self unreach retryable msgs1 winner ready2 msgs2 c,
+  coordinator key holders = Some c -> In self holders -> self <> c -> wf_table m holders ->
+  silent_ok (mkEnv tm holders t self unreach ready2 msgs2) retryable c msgs1
+    (session_silent key tm m classify holders t self retryable msgs1 winner ready2 msgs2) = true.
+Proof. exact silent_ok_model. Qed.
+Print Assumptions C11_unresponsive_coordinator_classified.
+
+Theorem C11_judge_silent_sound : forall ev c msgs1 o,
+  silent_ok ev true c msgs1 o = true -> coordinator_unresponsive (e_tm ev) c msgs1 = true ->
+  exists cs, o_elected o = Some cs /\ ~ In c cs /\ (forall p, In p (e_holders ev) -> p <> c -> In p cs).
+Proof. exact silent_ok_sound. Qed.
+Print Assumptions C11_judge_silent_sound.
+
+(* The replacement attempt does not depend on the culprits being reachable: if enough key holders that
+   are neither culprits nor unreachable answer ready, the new coordinator's ready loop announces a
+   subset - for every set of unreachable peers (the results of its broadcasts are ignored). *)
+Theorem C11_replacement_runs : forall key holders t ps unreach self ready2,
   In self holders ->
+  enough holders t ps unreach self ready2 = true ->
+  exists calls S, initiate key holders t ps [self] ready2 = (calls, Some S).
+Proof. exact enough_announces. Qed.
+Print Assumptions C11_replacement_runs.
+
+(* The judge used on the implementation's observations accepts the model's whole session for every
+   input (hypotheses: this relayer holds a key and is not named as a culprit; the key holders are
+   entries of the peer table) and for every set of unreachable peers ... *)
+Theorem C11_spec_ok_model : forall (key : peer -> N) tm m holders t self unreach retryable runs1 e winner ready2 msgs2,
+  In self holders -> wf_table m holders ->
   (forall ps, classify e = RetryExcluding ps -> ~ In self ps) ->
-  spec_ok tm msgs2 holders retryable e (length runs1)
-    (continue key tm classify holders t self retryable runs1 e winner ready2 msgs2) = true.
+  spec_ok (mkEnv tm holders t self unreach ready2 msgs2) retryable e (length runs1)
+    (continue key tm m classify holders t self retryable runs1 e winner ready2 msgs2) = true.
 Proof. exact spec_ok_model. Qed.
 Print Assumptions C11_spec_ok_model.
 
-(* ... and what it accepts means what the property says. *)
-Theorem C11_judge_retry_sound : forall tm msgs2 holders nfirst o ps,
-  obs_allows tm msgs2 holders nfirst o (RetryExcluding ps) = true ->
+(* ... also for two relayers of one session, where the start message of the one is what the other's
+   first attempt receives ... *)
+Theorem C11_duo_ok_model : forall (key : peer -> N) tm m holders t a c unreach ready1 msgs2,
+  In c holders -> wf_table m holders ->
+  duo_ok (mkEnv tm holders t c unreach [] msgs2) a
+    (duo_a key m holders t a ready1) (duo_c key tm m classify holders t a c ready1 msgs2) = true.
+Proof. exact duo_ok_model. Qed.
+Print Assumptions C11_duo_ok_model.
+
+(* ... and what it accepts means what the property says: after a retry decision the culprits are
+   neither candidates nor in a subset this relayer announces; if it coordinates the replacement attempt
+   and enough reachable non-culprits are ready, the attempt runs; every key holder other than the
+   culprits is sent the attempt's start message. *)
+Theorem C11_judge_retry_sound : forall ev nfirst o ps,
+  obs_allows ev nfirst o (RetryExcluding ps) = true ->
   exists cs, o_elected o = Some cs
     /\ (forall p, In p ps -> ~ In p cs)
-    /\ (forall p, In p holders -> ~ In p ps -> In p cs)
-    /\ (forall sub, In (true, sub) (skipn nfirst (o_runs o)) -> forall p, In p ps -> ~ In p sub).
+    /\ (forall p, In p (e_holders ev) -> ~ In p ps -> In p cs)
+    /\ (forall sub, In (true, sub) (skipn nfirst (o_runs o)) -> forall p, In p ps -> ~ In p sub)
+    /\ (o_inits2 o <> [] -> enough (e_holders ev) (e_t ev) ps (e_unreach ev) (e_self ev) (e_ready2 ev) = true ->
+        exists sub, In (true, sub) (skipn nfirst (o_runs o)))
+    /\ (forall sub, In (true, sub) (skipn nfirst (o_runs o)) ->
+        exists to, In (sub, to) (o_starts o)
+                   /\ forall p, In p (e_holders ev) -> p <> e_self ev -> ~ In p ps -> In p to).
 Proof. exact obs_allows_retry_sound. Qed.
 Print Assumptions C11_judge_retry_sound.
 
-Theorem C11_judge_giveup_sound : forall tm msgs2 holders nfirst o,
-  obs_allows tm msgs2 holders nfirst o GiveUp = true ->
+(* who is told: an accepted observation has, for every attempt the relayer ran as coordinator, a start
+   broadcast with the announced params that addresses every key holder except itself and [ex] *)
+Theorem C11_judge_told_sound : forall holders self ex runs starts,
+  told holders self ex runs starts = true ->
+  forall sub, In (true, sub) runs ->
+  exists to, In (sub, to) starts /\ forall p, In p holders -> p <> self -> ~ In p ex -> In p to.
+Proof. exact told_sound. Qed.
+Print Assumptions C11_judge_told_sound.
+
+Theorem C11_judge_giveup_sound : forall ev nfirst o,
+  obs_allows ev nfirst o GiveUp = true ->
   o_elected o = None /\ skipn nfirst (o_runs o) = [] /\ o_final o = FOriginal.
 Proof. exact obs_allows_giveup_sound. Qed.
 Print Assumptions C11_judge_giveup_sound.
@@ -142,15 +209,24 @@ Print Assumptions C11_judge_giveup_sound.
 (* left out: no election, the session does not end with the failure, and a well-formed start message
    that arrives (after initiate messages only) before the session's TSS timeout was honoured by a Run
    with its params *)
-Theorem C11_judge_wait_sound : forall tm msgs2 holders nfirst o,
-  obs_allows tm msgs2 holders nfirst o WaitForStart = true ->
+Theorem C11_judge_wait_sound : forall ev nfirst o,
+  obs_allows ev nfirst o WaitForStart = true ->
   o_elected o = None /\ o_final o <> FOriginal
   /\ (forall pre at_ f l post,
-        msgs2 = pre ++ (at_, MStart f (Some l)) :: post ->
-        Forall (early_initiate (tss_to tm)) pre -> (at_ < tss_to tm)%N ->
+        e_msgs2 ev = pre ++ (at_, MStart f (Some l)) :: post ->
+        Forall (early_initiate (tss_to (e_tm ev))) pre -> (at_ < tss_to (e_tm ev))%N ->
         exists r, In r (skipn nfirst (o_runs o)) /\ snd r = l).
 Proof. exact obs_allows_wait_sound. Qed.
 Print Assumptions C11_judge_wait_sound.
+
+(* two relayers: a key holder that the coordinator's subset leaves out was told (its first attempt ran
+   with that subset), held no election (it does not blame the healthy coordinator) and did not end
+   with the failure *)
+Theorem C11_judge_duo_sound : forall ev a oa oc sub rest,
+  duo_ok ev a oa oc = true -> o_runs oa = (true, sub) :: rest -> ~ In (e_self ev) sub ->
+  (exists rest', o_runs oc = (false, sub) :: rest') /\ o_elected oc = None /\ o_final oc <> FOriginal.
+Proof. exact duo_ok_sound. Qed.
+Print Assumptions C11_judge_duo_sound.
 
 (* The unrepaired code (kept as a statement about the explicitly named old_ definitions): whatever
    the pools return is an errors.Join value, so nothing was ever retried and a left-out relayer
@@ -182,5 +258,23 @@ Example C11_nonvacuous :
      a start after the TSS timeout: given up *)
   /\ left_out_wait (mkTiming 40 20000) [(200, MInitiate 3); (450, MStart 3 (Some [3; 0]))]%N = ([OReady 3; ORun [3; 0]]%N, false)
   /\ left_out_wait (mkTiming 3600000 2000) [(6000, MStart 3 (Some [3; 0]))]%N = ([], true)
-  /\ honoured 20000 [(200, MInitiate 3); (450, MStart 3 (Some [3; 0]))]%N [(true, [0; 1]%N)] = false.
+  /\ honoured 20000 [(200, MInitiate 3); (450, MStart 3 (Some [3; 0]))]%N [(true, [0; 1]%N)] = false
+  (* the coordinator 1 stays silent while peer 3 sends an initiate message every 100 ms: unresponsive in
+     the specification's sense, the deadline stays at 300; its own initiate message at 100 moves it to 400 *)
+  /\ coordinator_unresponsive (mkTiming 300 3000) 1%N [(100, MInitiate 3); (200, MInitiate 3); (290, MStart 3 (Some [3]))]%N = true
+  /\ tr_deadline (silent_wait (mkTiming 300 3000) 1%N [(100, MInitiate 3); (200, MInitiate 3)]%N) = 300%N
+  /\ tr_deadline (silent_wait (mkTiming 300 3000) 1%N [(100, MInitiate 1); (200, MInitiate 3)]%N) = 400%N
+  /\ o_elected (session_silent key (mkTiming 300 3000) 5 classify [0; 1; 2; 3]%N 1%Z 0%N true
+                   [(100, MInitiate 3); (200, MInitiate 3)]%N None [2; 3]%N []) = Some [2; 0; 3]%N
+  (* culprit 2 unreachable, 3 and 0 ready: enough for t = 1, the replacement attempt runs *)
+  /\ enough [0; 1; 2; 3]%N 1%Z [2%N] [2%N] 1%N [2; 3; 0]%N = true
+  /\ enough [0; 1; 2; 3]%N 2%Z [2%N] [3%N] 1%N [2; 3; 0]%N = false
+  (* who is told: the start message that goes to the subset only does not tell the left-out holder 3 *)
+  /\ told [0; 1; 2; 3]%N 1%N [] [(true, [1; 0]%N)] [([1; 0]%N, [0; 1; 2; 3; 4]%N)] = true
+  /\ told [0; 1; 2; 3]%N 1%N [] [(true, [1; 0]%N)] [([1; 0]%N, [1; 0]%N)] = false
+  (* two relayers: 1 coordinates, 0 and 2 are ready first, 3 is left out: told, waits, joins the replacement *)
+  /\ duo_a key 5 [0; 1; 2; 3]%N 2%Z 1%N [0; 2; 3]%N
+       = mkObs [(true, [1; 2; 0]%N)] None [] [] FNil [] [([1; 2; 0]%N, [0; 1; 2; 3; 4]%N)]
+  /\ duo_c key (mkTiming 3000 3600000) 5 classify [0; 1; 2; 3]%N 2%Z 1%N 3%N [0; 2; 3]%N [(0, MStart 0 (Some [0; 3; 2]))]%N
+       = mkObs [(false, [1; 2; 0]%N); (false, [0; 3; 2]%N)] None [] [] FNil [] [].
 Proof. vm_compute. repeat split. Qed.
